@@ -19,7 +19,8 @@ CLAIM = {
             "int), rejects non-tensor / non-differentiable indices; shape (numel(out), numel(in)), dtype of the "
             "argument; rmv(g) = J^T g, mv(u) = J u through the double-backward trick, both with create_graph following "
             "grad mode; after the operator's parameters are substituted (uselinopparams) the products are those of the "
-            "Jacobian at the *new* point, including new tensors of the function's object, and the object is restored; "
+            "Jacobian at the *new* point, including new tensors of the function's object (also when ONLY the object's "
+            "tensors are substituted), and the object is restored; "
             "the cached graph is used iff the parameter identities are those recorded at construction; hess is the "
             "Jacobian operator of grad_idx f with the Hermitian flag. mm/rmm/fullmatrix/.H follow from the "
             "LinearOperator contract (C11). Symmetry of the Hessian is mathematics (f in C2).",
